@@ -139,8 +139,12 @@ fn gen_wide_id_feats(rng: &mut Rng) -> String {
     cols.join(",")
 }
 
-fn gen_id_feats(rng: &mut Rng) -> String {
+fn gen_id_feats(rng: &mut Rng, trailing: bool) -> String {
     let a = format!("名{}", rng.below(3));
+    if trailing && rng.chance(1, 3) {
+        // two columns, the second one empty: the row ends in a comma
+        return format!("{a},");
+    }
     let b = match rng.below(4) {
         0 => "*".to_string(),
         _ => format!("s{}", rng.below(3)),
@@ -218,10 +222,28 @@ impl Scenario for MecabScenario {
             "%L?[1]/%R[0]",
             "%L[0]/%R?[1]",
             "%L?[2],%L[0]/R:%R[0]",
+            // two optional references on a side (each alone decides whether the template applies),
+            // and a non-optional twin that expands to the same text where both apply
+            "B9:%L?[1],%L?[2]/%R?[1],%R?[2]",
+            "B9:%L[1],%L[2]/%R[1],%R[2]",
+            "%L?[2],%L?[1]/B10:%R[0]",
         ];
         let n_t = 1 + rng.usize(6);
         let mut idx: Vec<usize> = (0..pool.len()).collect();
         rng.shuffle(&mut idx);
+        // one world in eight has id-table rows that end in a comma (an empty last column). A bare
+        // reference to that column would expand to the empty string, which the bigram files
+        // reserve for BOS/EOS (cf. KF-C16-2): templates with such a side are left out there
+        let trailing = rng.chance(1, 8);
+        if trailing {
+            idx.retain(|&i| {
+                pool[i]
+                    .split_once(':')
+                    .map_or(pool[i], |x| if x.0.starts_with('B') { x.1 } else { pool[i] })
+                    .split('/')
+                    .all(|side| !matches!(side.trim_start_matches("R:"), "%L[1]" | "%L?[1]" | "%R[1]" | "%R?[1]"))
+            });
+        }
         let mut chosen: Vec<&str> = idx.iter().take(n_t).map(|&i| pool[i]).collect();
         let wide = rng.chance(1, 5);
         if wide {
@@ -245,7 +267,7 @@ impl Scenario for MecabScenario {
                 if wide {
                     v.push(format!("{i} {}", gen_wide_id_feats(rng)));
                 } else {
-                    v.push(format!("{i} {}", gen_id_feats(rng)));
+                    v.push(format!("{i} {}", gen_id_feats(rng, trailing)));
                 }
             }
             v
@@ -360,7 +382,7 @@ impl Scenario for MecabScenario {
         plan.set_file("right-id.def", right.join("\n") + "\n");
         plan.set_file("left-id.def", left.join("\n") + "\n");
         plan.set_file("model.def", md);
-        plan.set_param("cost_factor", *rng.pick(&[1i64, 7, 100, 700, 800]));
+        plan.set_param("cost_factor", *rng.pick(&[1i64, 7, 100, 700, 800, 800, 5000, 100_000]));
         let mut conv = Op::new("Convert");
         for n in READERS.iter().chain(SINKS.iter()) {
             if rng.chance(1, 3) {
@@ -554,7 +576,7 @@ impl Scenario for MecabScenario {
     fn describe(&self) -> ScenarioInfo {
         ScenarioInfo {
             level: "exploration",
-            rule: "one seeded run = a seeded MeCab model description (1-6 BIGRAM templates over %L[i], %R[i], %L?[i], %R?[i] and literal text; right-id.def/left-id.def with 2-8 dense ids, id 0 = BOS/EOS; model.def with positive, negative, zero, truncating-to-zero, unlisted, unmatched and slash-less lines plus header lines; cost factors 1-800), in 30% of the runs one of the statement's error worlds (gap among the ids, id 0 not BOS/EOS, malformed id line - must return Err). generate_bigram_info runs with short/EINTR readers and sinks; its three outputs are compiled with the raw connector and, for every pair of non-zero ids, the connection cost must equal the harness-side expansion of the model: sum over applicable templates of -trunc(w*factor) of the line 'Lexp/Rexp'; ids must be emitted densely ascending; a hard fault at a seeded offset of a sink must give Err (never Ok with a short file), a fired hard reader fault must give Err. distinct_nontrivial = distinct plan hashes of runs with >= 1 comparison",
+            rule: "one seeded run = a seeded MeCab model description (1-6 BIGRAM templates over %L[i], %R[i], %L?[i], %R?[i] and literal text; right-id.def/left-id.def with 2-8 dense ids, id 0 = BOS/EOS; model.def with positive, negative, zero, truncating-to-zero, unlisted, unmatched and slash-less lines plus header lines; cost factors 1-800), in 30% of the runs one of the statement's error worlds (gap among the ids, id 0 not BOS/EOS, malformed id line - must return Err). generate_bigram_info runs with short/EINTR readers and sinks; its three outputs are compiled with the raw connector and, for every pair of non-zero ids, the connection cost must equal the harness-side expansion of the model: sum over applicable templates of -trunc(w*factor) of the line 'Lexp/Rexp'; ids must be emitted densely ascending; a hard fault at a seeded offset of a sink must give Err (never Ok with a short file), a fired hard reader fault must give Err. Added later: id tables listed in shuffled order (1 in 4), rows ending in a comma (1 world in 8), cost factors up to 100000, two optional references on one side and a non-optional twin template expanding to the same text; sinks by &mut or owned BufWriter/LineWriter. distinct_nontrivial = distinct plan hashes of runs with >= 1 comparison",
             assumptions: vec![
                 "template shapes are restricted to those the MeCab documentation defines unambiguously; feature values contain no '/'",
                 "a table without id 0 is outside the statement and not generated",
